@@ -60,6 +60,10 @@ def file_inputs(rng, count):
         ftxt = gen.gen_user_factors_text(rng) if rng.random() < 0.5 else None
         r = rng.random()
         tag = "valid"
+        if rng.random() < 0.3:
+            txt = pf.valid_soup_file(rng)
+            tag = "valid_shared_ids"
+            r = 1.0
         if r < 0.45:
             txt = pf.corrupt_file(rng, txt)
             tag = "corrupt_components"
@@ -98,7 +102,7 @@ def run(tier, seed):
         R.harness_errors.append(str(e)[-1500:])
         R.broken.append(("build of /repo's working tree failed", str(e)[-800:]))
         return R.finish(meta)
-    ok, rep = check.proof_obligations(prop, THEOREMS)
+    ok, rep = check.proof_obligations(prop, THEOREMS, extra_targets=["theories/Model/ParseCheck.vo"])
     R.proof = rep
     if not ok:
         R.broken.append(("proof obligations", {k: rep.get(k) for k in ("failed", "failing_location", "forbidden_vernacular",
